@@ -11,7 +11,7 @@ fn extract_limit(bounds: &Node, tag_name: &str) -> Result<Option<RecordValue>> {
             .attribute("type")
             .invalid_err(format!("Cannot find type attribute of limit '{tag_name}'"))?;
         let value_str = crate::xml::text_of(&tag).unwrap_or_else(|| "0".to_string());
-        let value_str = value_str.as_str();
+        let value_str = value_str.trim();
         Ok(match type_str {
             "Integer" => Some(RecordValue::Integer(
                 value_str
